@@ -78,7 +78,7 @@ def probes():
 
 # ------------------------------------------------------------------------------------ sentinels
 SENT_FILE = "PWNED"            # relative: the cwd of every operation is the world root
-SENT_ABS = "PWNED_ABS"         # addressed as {ROOT}/PWNED_ABS
+SENT_ABS = "PWNED_ABS"         # addressed absolutely: os.getcwd() + '/PWNED_ABS', computed when the payload runs
 SENT_IMPORT = "PWNED_IMPORT"   # written by sentinel_mod.py when it is imported
 SENT_FILES = (SENT_FILE, SENT_ABS, SENT_IMPORT, "PWNEDw", "Sw")
 SENT_ENV = "CDDSIM_C17_SENTINEL"
@@ -99,7 +99,8 @@ def _sentinel_module():
 
 
 # ------------------------------------------------------------------------------------- payloads
-# expression payloads (valid Python expressions); '{ROOT}' is replaced by the world root when rendered
+# expression payloads (valid Python expressions).  No payload text contains the pid-dependent world root: input text
+# must be identical from run to run (hash order, line wrapping and torn-write prefixes depend on it)
 CALLS = (
     "__import__('os').system('touch PWNED')",
     "open('PWNED', 'w')",
@@ -114,7 +115,7 @@ CALLS = (
     "__import__('sentinel_mod')",
     "__import__('os').environ.__setitem__('CDDSIM_C17_SENTINEL', '1')",
     "__import__('sys').modules['c17_sentinel'].__setattr__('touched', 1)",
-    "open('{ROOT}/PWNED_ABS', 'w')",
+    "open(__import__('os').getcwd() + '/PWNED_ABS', 'w')",
     "print('x', file=open('PWNED', 'w'))",
     "(lambda: open('PWNED', 'w'))()",
     "[c for c in ().__class__.__base__.__subclasses__()]",
@@ -138,7 +139,7 @@ BENIGN_TYPES = ("int", "str", "bool", "float", "Optional[int]", "Optional[str]",
 TYPE_POOL = BENIGN_TYPES + CALLS[:8] + (
     "Union[sys.exit, ast.literal_eval]", "cdd", "List[open('PWNED', 'w')]", "Optional[__import__('antigravity')]",
     "lambda: open('PWNED', 'w')", "dict(a=open('PWNED','w'))", "Literal[exit()]", "sys.exit", "().__class__.__base__",
-    "Optional[__import__('sentinel_mod')]", "open('{ROOT}/PWNED_ABS', 'w')",
+    "Optional[__import__('sentinel_mod')]", "open(__import__('os').getcwd() + '/PWNED_ABS', 'w')",
 )
 BENIGN_DEFAULTS = ("5", "'a'", "True", "None", "0.5")
 DEFAULT_POOL = BENIGN_DEFAULTS + CALLS + ("sys.exit", "().__class__", "cdd")
@@ -148,7 +149,8 @@ DOC_DEFAULT_POOL = (None, "5", "'a'", "True", "None") + (
     "__import__('antigravity')", "__import__('sentinel_mod')", "[open('PWNED', 'w')]",
     "{'a': open('PWNED', 'w')}", "(1, open('PWNED', 'w'))", "__import__('os').environ.__setitem__('"
     "CDDSIM_C17_SENTINEL', '1')", "__import__('sys').modules['c17_sentinel'].__setattr__('touched', 1)",
-    "open('{ROOT}/PWNED_ABS', 'w')", "print('x', file=open('PWNED', 'w'))", "eval('exit()')", "sys.exit()",
+    "open(__import__('os').getcwd() + '/PWNED_ABS', 'w')", "print('x', file=open('PWNED', 'w'))", "eval('exit()')",
+    "sys.exit()",
     "int('5')", "ast.literal_eval", "cdd", "True if open('PWNED', 'w') else False", "-open('PWNED', 'w').fileno()",
 )
 DEFAULT_ANNOUNCE = (". Defaults to {d}", ". Defaults to {d}.", " (defaults to {d})", ". Default value is {d}",
@@ -186,7 +188,7 @@ MODULE_CODE = (
     "__import__('os').system('touch PWNED')",
     "import os as _os\n_os.environ['CDDSIM_C17_SENTINEL'] = '1'",
     "import sys as _sys\n_sys.modules['c17_sentinel'].touched = 1",
-    "open('{ROOT}/PWNED_ABS', 'w').close()",
+    "open(__import__('os').getcwd() + '/PWNED_ABS', 'w').close()",
     "from subprocess import Popen\nPopen(['touch', 'PWNED'])",
     "exec(\"open('PWNED', 'w')\")",
     "if True:\n    open('PWNED', 'w')",
@@ -200,10 +202,11 @@ SIMPLE = ("int", "str", "bool", "float")
 STYLES = ("rest", "google", "numpydoc")
 
 for _p in CALLS + NAMES + TYPE_POOL + DEFAULT_POOL + DECORATOR_POOL + tuple(x for x in DOC_DEFAULT_POOL if x):
-    ast.parse(_p.replace("{ROOT}", "/r"), mode="eval")
-    assert '"""' not in _p and "\\" not in _p
+    ast.parse(_p, mode="eval")
+    assert '"""' not in _p and "\\" not in _p and "{ROOT}" not in _p
 for _p in MODULE_CODE:
-    ast.parse(_p.replace("{ROOT}", "/r"))
+    ast.parse(_p)
+    assert "{ROOT}" not in _p
 
 
 def is_payload(text):
@@ -544,7 +547,7 @@ def _module(spec, *blocks):
 
 
 def render_files(spec):
-    """Every file of the simulated project ({ROOT} still symbolic)."""
+    """Every file of the simulated project (no file content depends on where the world lives)."""
     p0 = spec["params"][0] if spec["params"] else None
     files = {
         "m.py": _module(spec, render_function(spec), render_class(spec), render_argparse(spec)),
@@ -573,7 +576,9 @@ def render_files(spec):
 
 
 def concrete(text, world):
-    return text.replace("{ROOT}", world.root)
+    """Input text is used as drawn: it never contains the world root (see the note at the payload pools)."""
+    assert "{ROOT}" not in text
+    return text
 
 
 # ------------------------------------------------------------------------------- op construction
